@@ -63,6 +63,9 @@ func (u *Universe) frameObligations(prop string) []FrameResult {
 	if want("C10") {
 		add(u.frameTiny()...)
 	}
+	if want("C02", "C14") {
+		add(u.groundGlobalStrings("garbleBuildFlags", []string{"-trimpath", "-buildvcs=false"}, []string{"toolexecCmd", "appendListedPackages"}, []string{"C02", "C14"}))
+	}
 	add(u.effectObligations(prop)...)
 	for _, r := range u.frameCaseCalls(prop) {
 		out = append(out, r)
